@@ -8,6 +8,8 @@ compare_source(ctx, ...)     the translator's own tie: PyIR.exec on the regenera
                              (vm_compute, Tie/EngPy_steps.check_case_src) on cases of the campaign and compared with what the
                              REAL engines returned (cause, fault address, ops, output, last-ops ring, final memory)."""
 import re
+import subprocess
+from pathlib import Path
 
 from . import enginecamp as ec
 from . import framework as fw
@@ -21,13 +23,15 @@ MAX_OPS = 4000      # bounded number of steps per case for the in-Coq interprete
 
 def failing_item(out):
     """name the file and, when possible, the theorem in which coqc stopped"""
-    m = re.search(r'File "\./([^"]+)", line (\d+)', out)
+    m = re.search(r'File "([^"]+)", line (\d+)', out)
     if not m:
         return 'coq build'
     f, line = m.group(1), int(m.group(2))
+    path = Path(f) if f.startswith('/') else fw.COQ / f
+    shown = path.name.replace('Priv_', '')
     name = None
     try:
-        for i, l in enumerate((fw.COQ / f).read_text().splitlines(), 1):
+        for i, l in enumerate(path.read_text().splitlines(), 1):
             if i > line:
                 break
             mm = re.match(r'\s*(?:Theorem|Lemma|Example|Definition)\s+(\w+)', l)
@@ -35,20 +39,30 @@ def failing_item(out):
                 name = mm.group(1)
     except OSError:
         pass
-    return f'{name} ({f}:{line})' if name else f'{f}:{line}'
+    return f'{name} ({shown}:{line})' if name else f'{shown}:{line}'
+
+
+def tie_lemmas():
+    return len(re.findall(r'^(?:Theorem|Lemma)\s', (fw.COQ / 'Tie' / 'EngPy_tie.v').read_text(), re.M))
 
 
 def prepare(ctx):
-    ctx.engpy = {'text': None, 'steps': False, 'proved': False}
+    """returns (property files, extra targets) to hand to fw.static_proofs"""
+    ctx.engpy = {'text': None, 'steps': False, 'header': HEADER, 'shared': str(fw.REPO) == '/repo'}
     try:
         text = gen.generate(fw.REPO)
     except gen.GenError as e:
-        fw.write_if_changed(GEN, gen.stub(str(e)))
+        if ctx.engpy['shared']:
+            fw.write_if_changed(GEN, gen.stub(str(e)))
         ctx.broken_tie('EngPy source tie: translator gen_facts_engpy failed closed', str(e))
         ctx.coverage['obligations'] += 1
         return [], []
-    fw.write_if_changed(GEN, text)
     ctx.engpy['text'] = text
+    if not ctx.engpy['shared']:
+        prepare_private(ctx, text)
+        return [], []
+    # the repository under test is the default one: shared, cached build under coq/ (every such run writes the same facts)
+    fw.write_if_changed(GEN, text)
     ok, out = fw.coq_make(['Tie/EngPy_steps.vo'], timeout=900)
     if not ok:
         ctx.broken_tie(f'EngPy source tie: {failing_item(out)} - the regenerated IR no longer fits the step definitions', out)
@@ -56,15 +70,70 @@ def prepare(ctx):
         return [], []
     ctx.engpy['steps'] = True
     ok, out = fw.coq_make(['Tie/EngPy_tie.vo', 'Properties/C01_source.vo'], timeout=2400)
-    tie_src = (fw.COQ / 'Tie' / 'EngPy_tie.v').read_text()
-    n_tie = len(re.findall(r'^(?:Theorem|Lemma)\s', tie_src, re.M))
-    ctx.coverage['obligations'] += n_tie
+    ctx.coverage['obligations'] += tie_lemmas()
     if not ok:
         ctx.broken_tie(f'EngPy source tie: {failing_item(out)}', out)
         return [], ['Tie/EngPy_steps.vo']
-    ctx.coverage['discharged'] += n_tie
-    ctx.engpy['proved'] = True
+    ctx.coverage['discharged'] += tie_lemmas()
     return ['Properties/C01_source.v'], ['Tie/EngPy_tie.vo']
+
+
+PRIVATE = [('Tie/EngPy_steps.v', 'Priv_EngPy_steps.v'), ('Tie/EngPy_tie.v', 'Priv_EngPy_tie.v'),
+           ('Properties/C01_source.v', 'Priv_C01_source.v')]
+
+
+def relocate(src):
+    """the copy of a tie file that imports the regenerated modules from the scratch directory"""
+    def line(m):
+        mods = ['Priv_' + x.split('.')[-1] for x in m.group(1).split()]
+        return 'Require Import ' + ' '.join(mods) + '.'
+    out, n = re.subn(r'^From FJ Require Import ((?:(?:Gen|Tie)\.EngPy\w*|Gen\.Facts_EngPy|\s)+)\.[^\n]*regenerated[^\n]*$', line, src, flags=re.M)
+    if n != 1:
+        raise gen.GenError('tie file without its "regenerated" import line')
+    return out
+
+
+def prepare_private(ctx, text):
+    """a scratch copy of the repository is under test (seeded change): the regenerated facts and the files that depend on
+    them are compiled in the scratch directory of this run, so that the shared build under coq/ is never touched"""
+    d = ctx.scratch
+    (d / 'Priv_Facts_EngPy.v').write_text(text)
+    files = [d / 'Priv_Facts_EngPy.v']
+    for src, dst in PRIVATE:
+        (d / dst).write_text(relocate((fw.COQ / src).read_text()))
+        files.append(d / dst)
+    ok, out = fw.coq_make(['Proofs/EngPyProps.vo', 'Model/PyIR.vo', 'Model/RunCase.vo'])      # what the copies import
+    lp = subprocess.run([str(fw.VERIF / 'lint.sh')] + [str(f) for f in files], stdout=subprocess.PIPE,
+                        stderr=subprocess.STDOUT, text=True)
+    lok, lout = lp.returncode == 0, lp.stdout
+    ctx.engpy['header'] = HEADER.replace(' Tie.EngPy_steps', '') + 'Require Import Priv_EngPy_steps.\n'
+    ctx.coverage['obligations'] += tie_lemmas()
+    proved = ok and lok
+    if not ok:
+        ctx.broken_tie('EngPy source tie: the models the tie imports do not build', out)
+    if not lok:
+        ctx.broken_tie('EngPy source tie: lint', lout)
+    for f in files if ok else []:
+        rc, out = fw.coqc_file(f, timeout=2400)
+        if rc != 0:
+            what = ' - the regenerated IR no longer fits the step definitions' if f.name == 'Priv_EngPy_steps.v' else ''
+            ctx.broken_tie(f'EngPy source tie: {failing_item(out)}{what}', out)
+            proved = False
+            break
+        if f.name == 'Priv_EngPy_steps.v':
+            ctx.engpy['steps'] = True
+        if f.name == 'Priv_C01_source.v':
+            src = f.read_text()
+            theorems = re.findall(r'^\s*(?:Theorem|Lemma|Corollary)\s+(\w+)', src, re.M)
+            printed = re.findall(r'Print Assumptions\s+(\w+)', src)
+            blocks = [b.strip() for b in re.split(r'(?=Closed under the global context|Axioms:|Section Variables:)', out) if b.strip()]
+            ctx.coverage['obligations'] += len(theorems)
+            ctx.coverage['discharged'] += len(theorems)
+            for name, blk in zip(printed, blocks):
+                ctx.coverage['trusted_base'].append(f'Print Assumptions {name}: ' + re.sub(r'\s+', ' ', blk)[:600])
+            ctx.coverage.setdefault('theorems', []).extend(theorems)
+    if proved:
+        ctx.coverage['discharged'] += tie_lemmas()
 
 
 def compare_source(ctx, cases, results):
@@ -75,7 +144,7 @@ def compare_source(ctx, cases, results):
            if c['engine'] in ('featured', 'fast') and 'exc' not in r and r.get('cause') != 6 and r.get('ops', 0) <= MAX_OPS]
     sel = sel[:ctx.n(600, 5000)]
     terms = [ec.coq_case(c, r) for c, r in sel]
-    oks = fw.coq_eval_shards(ctx, 'c01src', HEADER, terms, 'check_case_src', shard=100)
+    oks = fw.coq_eval_shards(ctx, 'c01src', st['header'], terms, 'check_case_src', shard=100)
     bad = []
     for (c, r), ok in zip(sel, oks):
         if ok is None:
@@ -86,14 +155,15 @@ def compare_source(ctx, cases, results):
             bad.append((c, r))
     ctx.coverage['source_ir_agreeing'] = sum(1 for ok in oks if ok)
     for c, r in bad[:3]:
-        rc, model = fw.coq_eval_term(ctx, f'c01src_diag{id(c) % 100000}', HEADER, f'observe_src ({ec.coq_case(c, r)})')
+        rc, model = fw.coq_eval_term(ctx, f'c01src_diag{id(c) % 100000}', st['header'], f'observe_src ({ec.coq_case(c, r)})')
         ctx.broken_tie('EngPy source tie: PyIR.exec on the regenerated loop body disagrees with the real engine',
                        f'{c["engine"]} engine w={c["w"]} segs={c["segs"]} input={c["input"]}: observed cause={r.get("cause")} '
                        f'ops={r.get("ops")} fault={r.get("fault")} out={r.get("out")}; interpreter gives {model[-400:]}')
-    # the facts the proofs and the evaluation used must still be the ones generated by THIS run
-    try:
-        now = GEN.read_text()
-    except OSError:
-        now = None
-    if now != st['text']:
-        ctx.broken_tie('EngPy source tie: coq/Gen/Facts_EngPy.v was rewritten by a concurrent run - run again', '')
+    # shared build: the facts the proofs and the evaluation used must still be the ones generated by THIS run
+    if st['shared']:
+        try:
+            now = GEN.read_text()
+        except OSError:
+            now = None
+        if now != st['text']:
+            ctx.broken_tie('EngPy source tie: coq/Gen/Facts_EngPy.v was rewritten by a concurrent run - run again', '')
